@@ -268,9 +268,9 @@ def _mk_style(sd):
     return Style(color=fg, bgcolor=bg, link=link, **dict(attrs))
 
 
-def _console(width=W, height=H):
+def _console(width=W, height=H, cls=None):
     from rich.console import Console
-    return Console(file=io.StringIO(), width=width, height=height, force_terminal=True, color_system="truecolor",
+    return (cls or Console)(file=io.StringIO(), width=width, height=height, force_terminal=True, color_system="truecolor",
                    legacy_windows=False, _environ={}, get_time=lambda: 0.0)
 
 
@@ -1198,6 +1198,168 @@ def _part_sg(sh, tier, res):
             res.sample({"part": "sg", "plists": list(plists), "layout": lay, "driver": driver})
 
 
+# =========================================================================== part 5
+# Re-entrancy as an event of the proxy histories.  History: [write(P)] outer [write(Y)] flush, where
+# the outer operation prints through the console (a write that completes >= 1 line, or a flush of
+# pending text) and, WHILE that print is in progress, a nested operation on the same proxy happens
+# once: it is performed by a render hook of the console (bare proxy) or from inside the rendering of
+# the live display's renderable (with Live, through sys.stdout; there the lines handed to
+# console.print are recorded, because the nested frame drawing is Live's business).  Oracle: the printed lines, as a
+# multiset, are those of one of the two sequential orders (nested before outer / outer before
+# nested) of the reference proxy -- every line complete, exactly once, nested lines as lines of their
+# own and never merged into another line; the closing flush emits what is left exactly once.
+RE_PRE = ["", "ab"]
+RE_OUTER = [["w", "\n"], ["w", "c\n"], ["w", "c\nd"], ["w", "c\nd\n"], ["w", "\nd"], ["f"]]
+RE_NESTED = [["w", "n\n"], ["w", "p"], ["w", "p\nq"], ["w", ""], ["w", "\n"], ["w", "n\nm\n"], ["f"]]
+RE_POST = ["", "e", "e\n"]
+RE_VARIANTS = ["hook", "live"]
+
+
+def _seq_units(ops):
+    """reference proxy, sequential: -> texts of the printed units (lines and flushed partials)"""
+    pending, units = "", []
+    for op in ops:
+        if op[0] == "w":
+            pending += op[1]
+            while "\n" in pending:
+                line, _, pending = pending.partition("\n")
+                units.append(line)
+        elif pending:
+            units.append(pending)
+            pending = ""
+    return units
+
+
+def _re_cases():
+    for pre in RE_PRE:
+        for outer in RE_OUTER:
+            if outer == ["f"] and not pre:
+                continue                    # a flush with nothing pending prints nothing: no nested event
+            for nested in RE_NESTED:
+                for post in RE_POST:
+                    for variant in RE_VARIANTS:
+                        yield {"part": "re", "variant": variant, "pre": pre, "outer": outer, "nested": nested,
+                               "post": post}
+
+
+def check_reentrant(case, res):
+    from rich.console import RenderHook
+    from rich.text import Text
+    variant, pre, outer, nested, post = case["variant"], case["pre"], list(case["outer"]), list(case["nested"]), case["post"]
+    res.evaluations += 1
+    head = [["w", pre]] if pre else []
+    tail = ([["w", post]] if post else []) + [["f"]]
+    want = [sorted(_seq_units(head + [nested, outer] + tail)), sorted(_seq_units(head + [outer, nested] + tail))]
+    from rich.console import Console
+    printed = []
+
+    class Recording(Console):
+        """notes the text of every Text handed to print(): what is 'printed through the console'"""
+
+        def print(self, *objects, **kwargs):
+            for r in objects:
+                if isinstance(r, Text):
+                    printed.extend(r.plain.split("\n"))
+            super().print(*objects, **kwargs)
+
+    console = _console(cls=Recording if variant == "live" else None)
+    sink = _Sink()
+    armed = [None]
+    fired = [0]
+
+    def fire():
+        act, armed[0] = armed[0], None
+        if act is not None:
+            fired[0] += 1
+            act()
+
+    def do(target, op):
+        if op[0] == "w":
+            target.write(op[1])
+        else:
+            target.flush()
+
+    got = None
+    try:
+        if variant == "hook":
+            from rich.file_proxy import FileProxy
+
+            class Hook(RenderHook):
+                def process_renderables(self, renderables):
+                    fire()
+                    return renderables
+
+            proxy = FileProxy(console, sink)
+            console.push_render_hook(Hook())
+            for op in head:
+                do(proxy, op)
+            armed[0] = lambda: do(proxy, nested)
+            do(proxy, outer)
+            armed[0] = None
+            for op in tail:
+                do(proxy, op)
+            cells, ctl, d = decode(console.file.getvalue())
+            got = ["".join(c for c, _ in ln) for ln in _split_lines(cells)]
+            # _split_lines drops nothing but a missing final line; empty lines are kept
+        else:
+            from rich.live import Live
+
+            class Dash:
+                def __rich_console__(self, console, options):
+                    fire()
+                    yield Text(MARK)
+
+            saved = (sys.stdout, sys.stderr)
+            sys.stdout, sys.stderr = sink, _Sink()
+            try:
+                with Live(Dash(), console=console, auto_refresh=False):
+                    for op in head:
+                        do(sys.stdout, op)
+                    armed[0] = lambda: do(sys.stdout, nested)
+                    do(sys.stdout, outer)
+                    armed[0] = None
+                    for op in tail:
+                        do(sys.stdout, op)
+            finally:
+                sys.stdout, sys.stderr = saved
+            # a print from inside the live renderable's rendering also nests the display's own frame
+            # handling (not this property's business): read what was handed to console.print instead
+            got = list(printed)
+    except Exception as e:
+        res.violate(_crash_key(e), case, "%r" % (e,))
+        res.sig(("re", variant, outer[0], nested[0], "crash"))
+        return
+    verdict = "ok"
+    if sink.getvalue():
+        res.violate("reentrant/underlying-file-written", case, "%r reached the wrapped file" % sink.getvalue())
+        verdict = "sink"
+    elif sorted(got) not in want:
+        gc = collections.Counter("".join(got))
+        wcs = [collections.Counter("".join(w)) for w in want]
+        if gc in wcs:
+            diag = "lines-merged-or-split"
+        elif any(all(gc[k] <= w[k] for k in gc) for w in wcs):
+            diag = "text-lost"
+        else:
+            diag = "text-duplicated"
+        where = "in-flush" if outer[0] == "f" else "in-write"
+        res.violate("reentrant/%s" % where, case,
+                    diag + ": printed lines %r; sequential orders give %r (nested first) or %r (outer first); nested op ran %d time(s)"
+                    % (got, want[0], want[1], fired[0]))
+        verdict = diag
+    res.sig(("re", variant, outer[0], bool(pre), nested[0], nested[-1].endswith("\n") if nested[0] == "w" else None,
+             fired[0], want[0] != want[1], verdict), nontrivial=fired[0] > 0)
+
+
+def _part_re(sh, tier, res):
+    for idx, case in enumerate(_re_cases()):
+        if idx % sh["n"] != sh["i"]:
+            continue
+        check_reentrant(case, res)
+        if idx % 97 == 0:
+            res.sample(case)
+
+
 # =========================================================================== protocol
 def plan(tier, seed):
     shards = []
@@ -1210,6 +1372,7 @@ def plan(tier, seed):
     nsg = {"quick": {"S1": 1, "S2": 6, "SP2": 12, "S3": 6}, "thorough": {"S1": 1, "S2": 6, "SP2": 16, "S3": 32, "SP3": 8}}[tier]
     for sub, n in nsg.items():
         shards += [{"part": "sg", "sub": sub, "i": i, "n": n} for i in range(n)]
+    shards += [{"part": "re", "i": i, "n": 2} for i in range(2)]
     for spec in stream_sets(tier):
         nstreams = sum(1 for _ in streams(spec[2], spec[3], spec[4]))
         n = min(nstreams, 48 if tier == "quick" else 160)
@@ -1225,6 +1388,8 @@ def run_shard(sh, tier, seed):
         _part_fd(sh, tier, res)
     elif sh["part"] == "sg":
         _part_sg(sh, tier, res)
+    elif sh["part"] == "re":
+        _part_re(sh, tier, res)
     else:
         _part_fp(sh, tier, res)
     return res
@@ -1254,6 +1419,11 @@ def describe(tier, seed, res):
                 "a %d-list sub-alphabet, each sequence followed by a character, x 3 layouts (inline, one per line, per line inside "
                 "an open hyperlink), through one AnsiDecoder and (pairs; thorough also triples) through a FileProxy, compared per "
                 "character with vf/term.py on the same bytes. "
+                "Part 5 (RE): re-entrancy: histories [write(P)] outer [write(Y)] flush with P in {'', ab}, outer in {5 writes that "
+                "complete a line, flush}, Y in {'', e, e-newline}; while the outer call is printing, ONE nested call on the same proxy "
+                "(7 kinds: complete line, partial, partial+line, empty, newline, two lines, flush) made by a console render hook (bare "
+                "proxy) or by the live display's renderable (Live, sys.stdout); printed lines as a multiset must equal one of the two "
+                "sequential orders of the reference proxy. "
                 "A case is non-trivial when a write boundary falls inside a line or a flush emits a partial line (part 2) / "
                 "when some character carries a style (part 1); distinct = distinct outcome signatures."
                 % (len(universe(tier)), len(pair_menu(tier)), len(triple_menu(tier)), sets,
@@ -1268,6 +1438,8 @@ def describe(tier, seed, res):
             "OSC sequences end at ST or BEL",
             "foreign SGR: ECMA-48 meanings as in vf/term.py (empty parameter = 0; 24 ends single and double underline; 25 ends "
             "both blinks; 26 and other unknown codes change nothing); 38;5;n with n<16 is the standard colour n",
+            "re-entrancy part: a nested call may take effect before or after the outer call; a flushed partial line is printed "
+            "as a line of its own; with Live the lines handed to console.print are read instead of the screen",
             "write() return values are not judged (the statement is silent)",
             "pending text that is never flushed before the display stops is not required to appear",
         ],
@@ -1292,6 +1464,8 @@ def replay(case):
         check_line(c, res, AnsiDecoder())
     elif case.get("part") == "fd":
         check_foreign(case["stream"], res)
+    elif case.get("part") == "re":
+        check_reentrant(case, res)
     elif case.get("part") == "sg":
         check_sgr(tuple(case["plists"]), case["layout"], case["driver"], res)
     else:
